@@ -10,7 +10,7 @@
    site lists, and precedes the closes its site lists (see [conform]).
    Gen/Locks.v is regenerated from the source on every run; Race/Known.v lists the recorded pairs. *)
 From SC Require Import Base.Prelude Race.Lockset Race.LocksetProofs Race.WitnessProofs Race.Known
-  Race.C11Judge Race.JudgeProofs Gen.Locks.
+  Race.C11Judge Race.JudgeProofs Race.Handoff Race.HandoffProofs Gen.Locks.
 
 (* in every well-formed trace an exclusive holder of a lock is its only holder *)
 Theorem C11_mutual_exclusion : forall p, wf p ->
@@ -167,3 +167,81 @@ Print Assumptions C11_judge_sound.
 Theorem C11_judge_complete : forall c, agrees c = true -> C11_guard c = true -> C11_ok c = true.
 Proof. exact (judge_complete C11_discipline_holds). Qed.
 Print Assumptions C11_judge_complete.
+
+(* ---- message objects handed across a goroutine boundary (Race/Handoff.v) ----
+   A value sent on a channel field is a location of its own ("<field>.msg").  The send -> receive edge is
+   the publication edge of the machine: it orders what the sender did before the send, nothing orders what
+   the sender's side does afterwards.  The rule "a pointer sent on a channel is either a fresh copy or never
+   touched again by the sender", for ANY table that passes the check: a write row that meets a row using
+   the received object with no lock and no close to follow is the making of a fresh copy (construction
+   phase), or holds a lock, or precedes a close that the user has observed. *)
+Theorem C11_handover_rule : forall tb, check tb = true ->
+  forall k r, In k (t_sites tb) -> In r (t_sites tb) ->
+  s_loc k = s_loc r -> is_write k = true -> plain_use r ->
+  s_init k = true \/ s_locks k <> [] \/ observed_by r k.
+Proof. exact handover_rule. Qed.
+Print Assumptions C11_handover_rule.
+
+(* the rows the translator writes: a kept reference next to a receive row breaks the check of ANY table
+   that contains them; a copy row and a receive row are compatible in any table, by publication *)
+Theorem C11_handover_kept_reference_breaks_check : forall tb ch fk pk fr pr,
+  In (keep_site ch fk pk) (t_sites tb) -> In (recv_site ch fr pr) (t_sites tb) -> check tb = false.
+Proof. exact keep_site_breaks_check. Qed.
+Print Assumptions C11_handover_kept_reference_breaks_check.
+
+Theorem C11_handover_copy_passes : forall tb ch fc pc fr pr,
+  compatible tb (copy_site ch fc pc) (recv_site ch fr pr) = true /\
+  why tb (copy_site ch fc pc) (recv_site ch fr pr) = Some RPublish /\
+  compatible tb (copy_site ch fc pc) (copy_site ch fc pc) = true.
+Proof. exact copy_site_passes. Qed.
+Print Assumptions C11_handover_copy_passes.
+
+(* on the regenerated table: every write row of an object that some row uses after receiving it is a copy
+   (or locked / observed); the hypotheses are met by the rows of pkg/wrap's clientSend and serverSend *)
+Theorem C11_handover_table : forall k r, In k (t_sites lock_table) -> In r (t_sites lock_table) ->
+  s_loc k = s_loc r -> is_write k = true -> plain_use r ->
+  s_init k = true \/ s_locks k <> [] \/ observed_by r k.
+Proof. exact (handover_rule lock_table C11_discipline_holds). Qed.
+Print Assumptions C11_handover_table.
+
+Example C11_nonvacuous_handover_table : (2 <=? handover_pairs lock_table) = true.
+Proof. vm_compute. reflexivity. Qed.
+Print Assumptions C11_nonvacuous_handover_table.
+
+(* at the level of executions: the sender hands over its caller's object, the receiver reads it, the caller
+   - whose call was abandoned - writes it: a well-formed conforming execution with a data race *)
+Theorem C11_handover_kept_reference_refuted :
+  check tbKeep = false /\ wf trKeep /\ conform tbKeep trKeep /\
+  nth_error trKeep 3 = Some (2, Acc h_recv) /\ nth_error trKeep 4 = Some (1, Acc h_keep) /\
+  conflict h_recv h_keep = true /\ ~ hb trKeep 3 4.
+Proof.
+  split; [exact check_tbKeep|]. split; [exact wf_trKeep|]. split; [exact conform_trKeep|].
+  split; [reflexivity|]. split; [reflexivity|]. split; [reflexivity|exact trKeep_race].
+Qed.
+Print Assumptions C11_handover_kept_reference_refuted.
+
+(* and the copy: the check passes, the making of the copy and the receiver's read are ordered *)
+Example C11_nonvacuous_handover_copy :
+  check tbCopy = true /\ wf trCopy /\ conform tbCopy trCopy /\
+  nth_error trCopy 0 = Some (1, Acc h_copy) /\ nth_error trCopy 3 = Some (2, Acc h_recv) /\
+  conflict h_copy h_recv = true /\ hb trCopy 0 3.
+Proof.
+  split; [exact check_tbCopy|]. split; [exact wf_trCopy|]. split; [exact conform_trCopy|].
+  split; [reflexivity|]. split; [reflexivity|]. split; [reflexivity|exact trCopy_ordered].
+Qed.
+Print Assumptions C11_nonvacuous_handover_copy.
+
+(* the rows the translator extracts from the tree of seeded change C11-r4-3 (unary Invoke hands args over
+   as it is) fail the check; the rows of the unchanged tree pass *)
+Theorem C11_seed_r4_3_refuted : check seed_handoff_table = false /\ check fixed_handoff_table = true.
+Proof. exact seed_handoff_refuted. Qed.
+Print Assumptions C11_seed_r4_3_refuted.
+
+(* a borrowed message parameter captured by a goroutine (location "<Func>.<param>.*"): the goroutine's use and
+   the owner's next write after the function returned are unordered unless the function waits for the goroutine
+   (rows of self-mutation M4: the handler goroutine of a unary Invoke reads args itself) *)
+Theorem C11_borrowed_parameter_refuted : check lend_table = false /\ check lend_waited_table = true /\
+  why lend_waited_table (nth 0 (t_sites lend_waited_table) h_recv) (nth 1 (t_sites lend_waited_table) h_recv)
+    = Some (RWaitGroup "wg:wg@wrap.wrapper.Invoke@62"%string).
+Proof. exact lend_refuted. Qed.
+Print Assumptions C11_borrowed_parameter_refuted.
